@@ -104,3 +104,28 @@ def c18_family_listed(text: str | None, case: Any) -> bool:
         return False
     word = (_SIG or "").split(" ")[1] if _SIG else ""
     return word in kinds
+
+
+def debug_text_differs_only_by_comment(text: str | None, case: Any) -> bool:
+    """KF-C10-04: the trees become equal once everything from a '#' to the end of its line is removed from the text
+    Constants that precede a replacement field (CPython 3.12.1 does that to the text of '=' debug fields, even when the
+    '#' sits inside a string literal)."""
+    import ast
+    import re
+
+    from ..oracle import run
+
+    if not text or "#" not in text or "=" not in text:
+        return False
+    so, ours = run.ours(text, "exec")
+    sc, ref = run.cpy(text, "exec")
+    if so != run.TREE or sc != run.TREE:
+        return False
+    changed = False
+    for node in ast.walk(ours):
+        if isinstance(node, ast.JoinedStr):
+            for a, b in zip(node.values, node.values[1:]):
+                if isinstance(a, ast.Constant) and isinstance(a.value, str) and isinstance(b, ast.FormattedValue) and "#" in a.value:
+                    a.value = re.sub(r"#[^\n]*", "", a.value)
+                    changed = True
+    return changed and ast.dump(ours, include_attributes=True) == ast.dump(ref, include_attributes=True)
